@@ -246,6 +246,25 @@ class Tr(pyrx.ClassTranslator):
         return "Definition %s (e : %senv) %s : bool :=\n  if %s then true else false." % (
             coq_name, self.prefix, " ".join("(%s : R)" % p for p in params), t)
 
+    def first_formula(self, method, local, coq_name, params):
+        """like local_formula, for a local that is assigned a closed formula first and may be
+        re-solved later: the first assignment `local = expr` (no solver call in expr)"""
+        fn = self.fn.get(method)
+        found = [st for st in ast.walk(fn) if isinstance(st, ast.Assign) and
+                 len(st.targets) == 1 and isinstance(st.targets[0], ast.Name) and
+                 st.targets[0].id == local]
+        found.sort(key=lambda st: st.lineno)
+        if not found or _calls_solver(found[0]):
+            raise TranslateError("%s: no closed-form first assignment to %s" % (method, local))
+        env = Env()
+        for p in params:
+            env.v[p] = p
+        rhs = self.expr(found[0].value, env)
+        self.spans[coq_name] = (found[0].lineno, found[0].end_lineno,
+                                pyrx._sha(ast.unparse(found[0])))
+        return "Definition %s (e : %senv) %s :=\n  %s." % (
+            coq_name, self.prefix, " ".join("(%s : R)" % p for p in params), rhs)
+
     def local_formula(self, method, local, coq_name, params):
         """The right-hand side of the (single) assignment `local = expr` in `method`, as a
         function of `params` (names free in expr)."""
@@ -313,8 +332,112 @@ def _slice(stmts):
     return keep
 
 
+
+def _solver_call(node, method_name):
+    """`root_scalar(f, ..., method="...")` -> (name of f, keyword dict) or None"""
+    if isinstance(node, ast.Call) and isinstance(node.func, ast.Name) and \
+            node.func.id == "root_scalar" and node.args and isinstance(node.args[0], ast.Name):
+        kw = {k.arg: k.value for k in node.keywords}
+        m = kw.get("method")
+        if isinstance(m, ast.Constant) and m.value == method_name:
+            return node.args[0].id, kw
+    return None
+
+
+def jouguet_orchestration(tr):
+    """The part of findJouguetVelocity that `tail()` does not see: how the bracket handed to
+    the root finder is chosen.  Fail-closed: the method must consist of exactly
+        <prefix: pHighT, eHighT, def vpDerivNum>
+        Tmin = ...; Tmax = ...; bracket1, bracket2 = vpDerivNum(Tmin), vpDerivNum(Tmax)
+        while <test>: <assignments to Tmin, Tmax>; bracket1, bracket2 = vpDerivNum(Tmin), vpDerivNum(Tmax)
+        tmSol: float
+        if <test2>: rootResult = root_scalar(vpDerivNum, bracket=[..], method="brentq", ..)
+        else:       rootResult = root_scalar(vpDerivNum, method="secant", x0=.., x1=.., ..)
+        if rootResult.converged: tmSol = rootResult.root  else: raise WallGoError(...)
+        vp = ...; return float(vp)
+    and __init__ must be `try: self.vJ = self.findJouguetVelocity()  except WallGoError: ...;
+    self.vJ = self.template.vJ`.  Emitted: the initial bracket, the loop test, the loop step,
+    the brentq/secant test and the bracket / starting points given to the two solvers."""
+    fn = tr.fn.get("findJouguetVelocity")
+    body = [st for st in fn.body
+            if not (isinstance(st, ast.Expr) and isinstance(st.value, ast.Constant))]
+    k = [i for i, st in enumerate(body) if isinstance(st, ast.FunctionDef)]
+    if len(k) != 1 or body[k[0]].name != "vpDerivNum":
+        raise TranslateError("findJouguetVelocity: expected exactly the closure vpDerivNum")
+    rest = body[k[0] + 1:]
+    BR = ast.unparse(ast.parse("bracket1, bracket2 = vpDerivNum(Tmin), vpDerivNum(Tmax)"))
+
+    def shape(cond, what):
+        if not cond:
+            raise TranslateError("findJouguetVelocity: unexpected bracket orchestration (%s)"
+                                 % what)
+    shape(len(rest) == 9, "%d statements after vpDerivNum, expected 9" % len(rest))
+    s_tmin, s_tmax, s_br, s_while, s_ann, s_choice, s_conv, s_vp, s_ret = rest
+    for st, nm in ((s_tmin, "Tmin"), (s_tmax, "Tmax")):
+        shape(isinstance(st, ast.Assign) and ast.unparse(st.targets[0]) == nm, "initial " + nm)
+    shape(isinstance(s_br, ast.Assign) and ast.unparse(s_br) == BR, "initial bracket values")
+    shape(isinstance(s_while, ast.While) and not s_while.orelse and
+          ast.unparse(s_while.body[-1]) == BR, "while loop re-evaluating the bracket")
+    shape(isinstance(s_ann, ast.AnnAssign) and s_ann.value is None, "tmSol annotation")
+    shape(isinstance(s_choice, ast.If) and len(s_choice.body) == 1 and len(s_choice.orelse) == 1
+          and all(isinstance(b, ast.Assign) and ast.unparse(b.targets[0]) == "rootResult"
+                  for b in (s_choice.body[0], s_choice.orelse[0])), "brentq/secant choice")
+    br = _solver_call(s_choice.body[0].value, "brentq")
+    sc = _solver_call(s_choice.orelse[0].value, "secant")
+    shape(br and br[0] == "vpDerivNum" and "bracket" in br[1] and
+          isinstance(br[1]["bracket"], (ast.List, ast.Tuple)) and len(br[1]["bracket"].elts) == 2,
+          "brentq call on vpDerivNum with a two-point bracket")
+    shape(sc and sc[0] == "vpDerivNum" and "x0" in sc[1] and "x1" in sc[1],
+          "secant call on vpDerivNum with x0, x1")
+    shape(isinstance(s_conv, ast.If) and ast.unparse(s_conv.test) == "rootResult.converged" and
+          len(s_conv.body) == 1 and ast.unparse(s_conv.body[0]) == "tmSol = rootResult.root" and
+          len(s_conv.orelse) == 1 and isinstance(s_conv.orelse[0], ast.Raise),
+          "only a converged root is accepted, otherwise WallGoError")
+    shape(isinstance(s_ret, ast.Return), "return")
+    # __init__: the only fallback is the template's vJ on WallGoError
+    ini = tr.fn.get("__init__")
+    tries = [st for st in ini.body if isinstance(st, ast.Try)]
+    shape(len(tries) == 1 and len(tries[0].body) == 1 and
+          ast.unparse(tries[0].body[0]) == "self.vJ = self.findJouguetVelocity()" and
+          len(tries[0].handlers) == 1 and
+          ast.unparse(tries[0].handlers[0].type) == "WallGoError" and
+          ast.unparse(tries[0].handlers[0].body[-1]) == "self.vJ = self.template.vJ" and
+          not tries[0].orelse and not tries[0].finalbody,
+          "__init__: try findJouguetVelocity except WallGoError -> template.vJ")
+    others = [st for st in ast.walk(ini) if isinstance(st, ast.Assign) and
+              ast.unparse(st.targets[0]) == "self.vJ"]
+    shape(len(others) == 2, "__init__ assigns self.vJ elsewhere")
+
+    px = tr.prefix
+    defs = []
+    # initial bracket
+    env = Env()
+    t1 = tr.block([s_tmin, s_tmax], env,
+                  lambda e: "(%s, %s)" % (e.v["Tmin"], e.v["Tmax"]))
+    defs.append("Definition jouguet_init (e : %senv) : R * R :=\n  %s." % (px, t1))
+    # loop test on (bracket1, bracket2, Tmin, Tmax)
+    env = Env()
+    for nm in ("bracket1", "bracket2", "Tmin", "Tmax"):
+        env.v[nm] = nm
+    defs.append("Definition jouguet_loop_test (e : %senv) (bracket1 bracket2 Tmin Tmax : R) : "
+                "bool :=\n  if %s then true else false." % (px, tr.test(s_while.test, env)))
+    step = tr.block(s_while.body[:-1], env.copy(),
+                    lambda e: "(%s, %s)" % (e.v["Tmin"], e.v["Tmax"]))
+    defs.append("Definition jouguet_loop_step (e : %senv) (Tmin Tmax : R) : R * R :=\n  %s."
+                % (px, step))
+    defs.append("Definition jouguet_use_brentq (e : %senv) (bracket1 bracket2 Tmin Tmax : R) : "
+                "bool :=\n  if %s then true else false." % (px, tr.test(s_choice.test, env)))
+    a, b = br[1]["bracket"].elts
+    defs.append("Definition jouguet_brentq_bracket (e : %senv) (Tmin Tmax : R) : R * R :=\n"
+                "  (%s, %s)." % (px, tr.expr(a, env), tr.expr(b, env)))
+    defs.append("Definition jouguet_secant_start (e : %senv) (Tmin Tmax : R) : R * R :=\n"
+                "  (%s, %s)." % (px, tr.expr(sc[1]["x0"], env), tr.expr(sc[1]["x1"], env)))
+    tr.spans["jouguet_orchestration"] = (s_tmin.lineno, s_conv.end_lineno,
+                                         pyrx._sha("".join(ast.unparse(x) for x in rest[:7])))
+    return "\n".join(defs)
+
 # ---------------------------------------------------------------------------------------
-H_ATTRS = ["Tnucl", "vJ"]
+H_ATTRS = ["Tnucl", "vJ", "TMaxLowT", "TMaxHydro", "TMinHydro"]
 H_EXT = [Pattern("self.thermodynamics.%s(_0)" % f, f, "R -> R")
          for f in ("pHighT", "pLowT", "eHighT", "eLowT", "wHighT", "wLowT", "dpLowT",
                    "deLowT", "csqLowT", "csqHighT")]
@@ -347,7 +470,12 @@ def generate_hydro(src):
     d, _ = tr.tail("findJouguetVelocity", "vJ_of_tm", opaque=["rootResult", "tmSol"])
     defs.append(d)
     defs.append(tr.branch_test("findMatching", "matchDeton", "is_detonation", ["vwTry"]))
-    out = [pyrx.COQ_PRELUDE, "(* generated from src/WallGo/hydrodynamics.py *)",
+    defs.append(jouguet_orchestration(tr))
+    defs.append(tr.method("_inverseMappingT", types={"mappedTpTm": "R * R"},
+                          coq_name="inverseMappingT"))
+    defs.append(tr.first_formula("findMatching", "vpmax", "findMatching_vpmax", ["vwTry"]))
+    out = [pyrx.COQ_PRELUDE, "From Coq Require Import Bool.\nLocal Open Scope bool_scope.\n"
+           "Local Open Scope R_scope.", "(* generated from src/WallGo/hydrodynamics.py *)",
            tr.header()] + defs
     return "\n".join(out) + "\n", tr
 
